@@ -112,7 +112,7 @@ def run(ctx: Ctx) -> int:
     n = 20 if ctx.quick else 400
     parts = [
         dict(maxv=3, maxd=3, maxr=3, maxia=2, maxiv=1, maxc=4, fns=cg.TRANSLATABLE, fwd=True, num=n),
-        dict(maxv=2, maxd=2, maxr=2, maxia=1, maxiv=1, maxc=5, fns=cg.TRANSLATABLE + ["loopinc"], fwd=False, num=n),
+        dict(maxv=2, maxd=2, maxr=2, maxia=1, maxiv=1, maxc=5, fns=cg.TRANSLATABLE + ["loopinc"] + cg.OPTIONAL, fwd=False, num=n),
     ]
     scns = cg.generate(ctx, rep, parts)
     recs = pmap(roundtrip, scns, chunk=8)
